@@ -1,6 +1,6 @@
 // Meaning-preserving rewrites (C08; the hash-relevant subset is reused by C13).
 // A rewrite maps a spec-level program to another spec-level program (or to a render style).
-import { f1Depth1, f3, packPrograms, Alias, Iface, Enum, Ref, Param, ObjT, Prop, U, I, L, P, ArrT, Tup, EnumMember, renderProgram } from "./spec.mjs";
+import { f1Depth1, f1Overlap, f3, packPrograms, packInline, Alias, Iface, Enum, Ref, Param, ObjT, Prop, U, I, L, P, ArrT, Tup, EnumMember, renderProgram } from "./spec.mjs";
 import { f2 } from "./spec2.mjs";
 import { TIER, SEED } from "./common.mjs";
 
@@ -144,6 +144,8 @@ export const REWRITES = {
         [ds[i].name, ds[i + 1].name],
         [ds[i + 1].name, ds[i].name],
       ]);
+      // a type parameter that carries one of the two names would capture the renamed references
+      if (prog.decls.some((d) => (d.params || []).some((p) => names.has(p)))) continue;
       out.push({ prog: renameDecls(prog, names), hash32: false });
     }
     return out;
@@ -181,6 +183,8 @@ export const REWRITES = {
     const pick = sites.filter((s) => s.path.length > 0 && !hasParam(s.t) && s.t.k !== "param");
     for (let i = 0; i < pick.length && out.length < cap; i += Math.max(1, Math.floor(pick.length / cap))) {
       const s = pick[i];
+      // a name the program does not use yet (the rewrite may be applied to an already rewritten program)
+      while (prog.decls.some((d) => d.name === `Extracted${n}`)) n++;
       const an = `Extracted${n++}`;
       const decl = Alias(an, s.t);
       const p2 = {
@@ -193,7 +197,13 @@ export const REWRITES = {
     }
     return out;
   },
-  "alias-whole-parser-type": (prog) => [{ prog: { ...prog, text: undefined, decls: [...prog.decls, ...prog.parsers.map(([n, t], i) => Alias(`Whole${i}`, t))], parsers: prog.parsers.map(([n], i) => [n, Ref(`Whole${i}`)]) }, hash32: true }],
+  "alias-whole-parser-type": (prog) => {
+    // names the program does not use yet (the rewrite may be applied to an already rewritten program)
+    let gen = 0;
+    while (prog.decls.some((d) => d.name.startsWith(`Whole${gen || ""}_`) || d.name === `Whole${gen || ""}0`)) gen++;
+    const nm = (i) => (gen === 0 ? `Whole${i}` : `Whole${gen}_${i}`);
+    return [{ prog: { ...prog, text: undefined, decls: [...prog.decls, ...prog.parsers.map(([n, t], i) => Alias(nm(i), t))], parsers: prog.parsers.map(([n], i) => [n, Ref(nm(i))]) }, hash32: true }];
+  },
   "inline-alias": (prog) => {
     const out = [];
     for (const d of prog.decls) {
@@ -213,7 +223,11 @@ export const REWRITES = {
     }
     return out;
   },
-  "wrap-in-identity-generic": (prog) => [{ prog: { ...prog, text: undefined, decls: [...prog.decls, Alias("IdW", Param("T"), ["T"])], parsers: prog.parsers.map(([n, t]) => [n, Ref("IdW", [t])]) }, hash32: true }],
+  "wrap-in-identity-generic": (prog) => {
+    let name = "IdW";
+    while (prog.decls.some((d) => d.name === name)) name += "W";
+    return [{ prog: { ...prog, text: undefined, decls: [...prog.decls, Alias(name, Param("T"), ["T"])], parsers: prog.parsers.map(([n, t]) => [n, Ref(name, [t])]) }, hash32: true }];
+  },
   "wrap-in-box-access": (prog) => [{ prog: { ...prog, text: undefined, decls: [...prog.decls, Alias("BoxW", ObjT([Prop("v", Param("T"))]), ["T"])], parsers: prog.parsers.map(([n, t]) => [n, { k: "index", t: Ref("BoxW", [t]), key: L("v") }]) }, hash32: true }],
   "interface-to-type": (prog) => {
     if (!prog.decls.some((d) => d.kind === "interface")) return [];
@@ -328,6 +342,12 @@ export function basePrograms({ computed = true } = {}) {
   if (computed) out.push(...f2());
   out.push(...f3());
   out.push(...extraBases());
+  // intersections and unions of inline object types that share keys (merged at compile time or not depending on
+  // how the shared key is declared): quick takes every sixth, thorough all
+  if (computed) {
+    const ov = f1Overlap();
+    out.push(...packInline(TIER === "thorough" ? ov : ov.filter((_, i) => i % 6 === 0), 25, "F1x"));
+  }
   return out;
 }
 
